@@ -263,6 +263,30 @@ def task_reject(pr, repo):
         pr.explore(ex, thunk, 'read_molecule_file %s' % fname)
 
 
+PRECHECK_REPLAY = r"""
+import sys, logging
+sys.path.insert(0, %(verif)r)
+logging.disable(logging.CRITICAL)
+from props import native
+# residues 1-12 of chain A of 1HPX; residue 5 has lost every heavy atom, one hydrogen record of it is left (--keep-protons)
+lines = [l for l in native.pdb_lines('1HPX') if l.startswith('ATOM') and l[21] == 'A' and int(l[22:26]) <= 12]
+out = []
+for l in lines:
+    if int(l[22:26]) == 5:
+        if l[12:16] == ' N  ':
+            out.append(l[:12] + ' H  ' + l[16:76] + ' H' + l[78:])
+        continue
+    out.append(l)
+try:
+    native.run_text(out, ['--keep-protons'])
+    print('completed')
+    sys.exit(0)
+except Exception as e:
+    print('raised %%s: %%s' %% (type(e).__name__, e))
+    sys.exit(1)
+"""
+
+
 def task_precheck(pr, repo):
     ex = Executor(repo)
     fi = repo.func('propka.lib.protein_precheck')
@@ -280,7 +304,8 @@ def task_precheck(pr, repo):
             ex.call_function(fi, [{'1A': conf}, ['1A']])
             ctx.oblige('PC: protein_precheck completes on residues with missing atoms, residues of which only hydrogens are left, unknown residues and termini (it only warns)', True)
         except PyRaise as e:
-            ctx.oblige('PC: protein_precheck raises %s' % e.exc_name, False)
+            ctx.oblige('PC: protein_precheck raises %s' % e.exc_name, False,
+                       meta={'replay': lambda model: PRECHECK_REPLAY % {'verif': os.path.dirname(os.path.dirname(os.path.abspath(__file__)))}})
     pr.explore(ex, thunk, 'protein_precheck')
 
 
